@@ -139,6 +139,11 @@ def r3_double_spend(ctx):
             r.check(not any(o_ in f.reach_from(vb) for o_ in oks), "gate", "a failing duplicate-input gate (in an adapter closure) cannot reach Ok", "the adapter running the duplicate-input gate can fail and still reach Ok", b.where(vb))
             r.undecided("gate/closure", "the duplicate-input gate is evaluated inside a closure handed to an iterator adapter: its coverage of every input is not decided", b.where(vb))
             return
+        if via:
+            # the set insertion happens in a closure handed to an adapter that runs once per transaction (`tx.inputs.iter().find(|i| !seen.insert(*i))` in
+            # the loop over the batch): the gate exists; which inputs it visits and what its outcome leads to is not read in this spelling
+            r.undecided("gate", "the duplicate-input gate is evaluated inside closure(s) handed to iterator adapters inside the batch loop: not decided", b.where(via[0][0]))
+            return
     r.check(len(ins) == 1, "gate", "every input is inserted into the `seen` set", "no/many duplicate-input gates: %d" % len(ins))
     if not ins:
         return
@@ -188,9 +193,12 @@ def r4_output_construction(ctx):
             r.undecided("payload", "payload %s" % sig(pay))
             continue
         cid, cdh = pay[1]
-        r.check(sig(cid) == "CoinID::new(Transaction::hash_nosigs(^tx), ($2.0 as u8))", "id", "id = CoinID::new(tx.hash_nosigs(), i)", "id = %s" % sig(cid), c.where(bb))
+        # the closure's captures resolved in the enclosing function's terms (a hash hoisted into a local before the parallel map is the same hash)
+        caps = q.closure_captures(b, c.nname)
+        RS = lambda x: sig(q.subst(x, {}, caps)) if x is not None else "?"
+        r.check(RS(cid) in ("CoinID::new(Transaction::hash_nosigs($1), ($2.0 as u8))", "CoinID::new(Transaction::hash_nosigs(^tx), ($2.0 as u8))"), "id", "id = CoinID::new(tx.hash_nosigs(), i)", "id = %s" % RS(cid), c.where(bb))
         f = dict(cdh[3]) if cdh[0] == "agg" else {}
-        r.check(sig(f.get("height", ("unknown", ""))) == "^height", "height", "height = the height argument", "height = %s" % sig(f.get("height", ("unknown", ""))), c.where(bb))
+        r.check(RS(f.get("height")) in ("$2", "^height"), "height", "height = the height argument", "height = %s" % RS(f.get("height")), c.where(bb))
         cd = f.get("coin_data")
         ok = cd is not None and cd[0] == "var"
         d = q.var_def_exprs(c, cd[1]) if ok else []
